@@ -16,6 +16,10 @@ the library calls `ast.*` and `DiGraph.add_edge / has_node / ...`.  Private help
   C02.R6  completeness on the way to the graph: wherever a collection of import records is de-duplicated / filtered by record equality
           (set(), dict.fromkeys, `in`, ...), equality of two records must imply the same (importer(), importee()) - else two import
           statements collapse into one edge
+  C02.R7  source -> tree: on the way from the public scan entry (reaches a directory listing and a parse call) every `ast.parse` /
+          `compile(.., PyCF_ONLY_AST)` that produces the trees uses the running interpreter's full grammar (mode exec, no older
+          feature_version), is not under a handler that swallows SyntaxError and lets the scan go on without the file, and its
+          result itself is what is wrapped for the collector
   C02.R5  converse: import records are created only by the collector; the graph adds an import edge importer -> importee exactly when
           both are known nodes, distinct (after flattening) and the edge is not present yet - for no other reason is it dropped
 """
@@ -31,7 +35,7 @@ from core.report import Result
 
 from . import c02_builtins  # noqa: F401  (installs the full interpreter into Explorer)
 from .c02_sym import ANode, App, Cat, Explorer, Inst, Run, Sym, Term, Unsupported, cat, dataclass_eq, mentions, show
-from .common import reachable_funcs, stmt_of, types_of, where
+from .common import callees_of, reachable_funcs, stmt_of, types_of, where
 
 CONVERTER = "pytestarch.eval_structure_generation.file_import.converter"
 IMPORT_TYPES = "pytestarch.eval_structure_generation.file_import.import_types"
@@ -569,6 +573,85 @@ def run_r4_ancestors(repo: Repo, res: Result, fq: str | None) -> None:
     res.undecide("C02.R4", key, f"{f.name} cannot be constant-folded on sample names by the symbolic executor ({why_not})", where(f, f.node))
 
 
+MEMO_DECORATORS = {"lru_cache", "cache", "cached", "memoize", "memoized"}
+LIST_MUTATORS = {"append", "extend", "insert", "pop", "remove", "clear", "sort", "reverse", "__setitem__", "__delitem__", "__iadd__"}
+
+
+def run_r4_shared_ancestors(repo: Repo, res: Result, fq: str | None) -> None:
+    """A memoised ancestors function hands the *same* list object to every caller: nothing may mutate a value that aliases its result,
+    else the importer hierarchy that later relative imports are resolved against is no longer the list of proper prefixes."""
+    from core.flow import Flow, Spec
+
+    f = repo.funcs.get(fq) if fq else None
+    if f is None:
+        f = repo.find_func(TYPES_MOD, "get_parent_modules")
+    if f is None:
+        return
+    memo = sorted(set(f.decorators) & MEMO_DECORATORS)
+    if not memo:
+        res.observe(f"C02.R4: {f.name} is not memoised: every caller gets a fresh list, aliasing of the ancestor lists is not an obligation")
+        return
+    T = types_of(repo)
+
+    def sources(fi, e):
+        if isinstance(e, ast.Call):
+            try:
+                cs, _how = T.callees(fi, e, byname_fallback=False)
+            except Exception:  # noqa: BLE001
+                return None
+            if any(c.fq == f.fq for c in cs):
+                return {"ANCESTORS"}
+        return None
+
+    def post(fi, e, tags):
+        # only aliases keep the tag: copies and derived values (a + b, x[:], list(x), sorted(x), comprehensions, strings) are new objects
+        if "ANCESTORS" not in tags:
+            return tags
+        if isinstance(e, (ast.Name, ast.Attribute, ast.IfExp, ast.BoolOp, ast.NamedExpr, ast.Starred)):
+            return tags
+        if isinstance(e, ast.Call):
+            if sources(fi, e):
+                return tags
+            try:
+                cs, how = T.callees(fi, e, byname_fallback=False)
+            except Exception:  # noqa: BLE001
+                cs, how = [], ""
+            if cs and how == "repo":
+                return tags
+        return tags - {"ANCESTORS"}
+
+    flow = Flow(repo, T, Spec(sources=sources, post=post, objects_carry=False))
+    bad: list[tuple[Any, ast.AST, str]] = []
+    for g in repo.all_functions():
+        if isinstance(g.node, ast.Lambda):
+            continue
+        for n_ in own_nodes(g.node):
+            tgt = None
+            if isinstance(n_, ast.Call) and isinstance(n_.func, ast.Attribute) and n_.func.attr in LIST_MUTATORS:
+                tgt = n_.func.value
+            elif isinstance(n_, ast.Subscript) and isinstance(n_.ctx, (ast.Store, ast.Del)):
+                tgt = n_.value
+            elif isinstance(n_, ast.AugAssign):
+                tgt = n_.target
+            if tgt is None:
+                continue
+            try:
+                if "ANCESTORS" in flow.tags(tgt if not isinstance(n_, ast.AugAssign) else _as_load_expr(tgt)):
+                    bad.append((g, n_, norm(stmt_of(n_))))
+            except Exception:  # noqa: BLE001
+                continue
+    key = f"{f.relpath}::{f.qualname}::memoised result is never mutated"
+    if bad:
+        g, n_, text = bad[0]
+        res.add("C02.R4", key, False, f"{f.name} is memoised (@{memo[0]}) and returns a list, and `{text}` in {g.qualname} mutates a value that aliases its result: the cached ancestor list is changed for every later import record, relative imports then resolve against the wrong package", where(g, n_), kind="flow")
+    else:
+        res.add("C02.R4", key, True, f"{f.name} is memoised (@{memo[0]}); no value aliasing its result is mutated anywhere", where(f, f.node), kind="flow")
+
+
+def _as_load_expr(t: ast.expr) -> ast.expr:
+    return t
+
+
 # --------------------------------------------------------------------------- R5
 
 
@@ -895,6 +978,287 @@ def run_r6(repo: Repo, res: Result, gram: dict, col: Collector) -> None:
         )
 
 
+# --------------------------------------------------------------------------- R7
+
+
+LISTING_CALLS = {"iterdir", "rglob", "glob", "walk", "listdir", "scandir"}
+SYNTAX_ERRORS = {"SyntaxError", "IndentationError", "TabError", "Exception", "BaseException"}
+BODY_MUTATORS = {"pop", "remove", "clear", "insert", "append", "extend", "reverse", "sort"}
+
+
+def _is_parse_call(repo: Repo, f, call: ast.Call) -> str | None:
+    fq = repo.resolve_name(f.module, call.func) if isinstance(call.func, (ast.Name, ast.Attribute)) else None
+    if fq == "ast.parse":
+        return "ast.parse"
+    if (fq in ("builtins.compile",) or (fq is None and isinstance(call.func, ast.Name) and call.func.id == "compile")) and any("PyCF_ONLY_AST" in norm(a) for a in [*call.args, *[k.value for k in call.keywords]]):
+        return "compile"
+    return None
+
+
+def _const_value(repo: Repo, f, e: ast.expr, depth: int = 0) -> Any:
+    """Constant value of an expression (through module constants), `...` if it is not a constant."""
+    try:
+        return ast.literal_eval(e)
+    except (ValueError, TypeError, SyntaxError):
+        pass
+    if depth < 4 and isinstance(e, (ast.Name, ast.Attribute)):
+        fq = repo.resolve_name(f.module, e)
+        if fq:
+            mod, _, name = fq.rpartition(".")
+            m = repo.modules.get(mod)
+            if m is not None and name in m.constants:
+                class _F:  # the constant is evaluated in its own module
+                    module = m
+                return _const_value(repo, _F, m.constants[name], depth + 1)
+    if isinstance(e, ast.Tuple):
+        vals = [_const_value(repo, f, x, depth + 1) for x in e.elts]
+        if all(v is not ... for v in vals):
+            return tuple(vals)
+    return ...
+
+
+def _always_raises(block: list[ast.stmt]) -> bool:
+    """Every path through the block ends in a `raise` (the exception is passed on or converted, never swallowed)."""
+    for st in block:
+        if isinstance(st, ast.Raise):
+            return True
+        if isinstance(st, ast.If) and st.orelse and _always_raises(st.body) and _always_raises(st.orelse):
+            return True
+        if isinstance(st, (ast.With, ast.AsyncWith)) and _always_raises(st.body):
+            return True
+        if isinstance(st, ast.Try) and (_always_raises(st.finalbody) or (_always_raises(st.body) and all(_always_raises(h.body) for h in st.handlers))):
+            return True
+        if isinstance(st, (ast.Return, ast.Continue, ast.Break)):
+            return False
+    return False
+
+
+def _catches_syntax_error(repo: Repo, f, t: ast.expr | None) -> str | None:
+    if t is None:
+        return "bare except"
+    for x in t.elts if isinstance(t, ast.Tuple) else [t]:
+        name = (repo.resolve_name(f.module, x) or norm(x)).split(".")[-1]
+        if name in SYNTAX_ERRORS:
+            return f"except {name}"
+    return None
+
+
+def _swallowers(repo: Repo, f, node: ast.AST) -> list[tuple[ast.AST, str]]:
+    """Handlers / suppress blocks of `f` around `node` under which a SyntaxError raised at `node` does not leave the function as an exception."""
+    from core.loader import ancestors
+
+    out: list[tuple[ast.AST, str]] = []
+    prev: ast.AST = node
+    for a in ancestors(node):
+        if a is f.node:
+            break
+        if isinstance(a, ast.Try) and any(prev is s for s in a.body):
+            for h in a.handlers:
+                what = _catches_syntax_error(repo, f, h.type)
+                if what and not _always_raises(h.body):
+                    out.append((h, f"`{what}:` handler that does not re-raise"))
+                if what:
+                    break  # a handler that passes the error on: outer handlers see its exception, judged there if it is still a SyntaxError family
+            if any(isinstance(n, ast.Return) for st in a.finalbody for n in ast.walk(st)):
+                out.append((a, "`finally:` block that returns (discards the exception)"))
+        if isinstance(a, (ast.With, ast.AsyncWith)) and any(prev is s for s in a.body):
+            for it in a.items:
+                c = it.context_expr
+                if isinstance(c, ast.Call) and (repo.resolve_name(f.module, c.func) or "").endswith("suppress"):
+                    for x in c.args:
+                        what = _catches_syntax_error(repo, f, x)
+                        if what:
+                            out.append((a, f"`with suppress({norm(x)})`"))
+        prev = a
+    return out
+
+
+def run_r7(repo: Repo, res: Result) -> None:
+    import sys
+
+    from core.loader import ancestors
+
+    T = types_of(repo)
+    funcs = [f for f in repo.all_functions() if not isinstance(f.node, ast.Lambda)]
+    callees = {f.fq: callees_of(repo, f, True) for f in funcs}
+    by_fq = {f.fq: f for f in funcs}
+
+    def reach(f) -> set[str]:
+        seen, todo = set(), [f]
+        while todo:
+            x = todo.pop()
+            if x.fq in seen:
+                continue
+            seen.add(x.fq)
+            todo += [c for c in callees.get(x.fq, []) if c.fq not in seen]
+        return seen
+
+    parses = [(f, c, k) for f in funcs for c in calls_in(f.node) for k in [_is_parse_call(repo, f, c)] if k]
+    listing = {f.fq for f in funcs for c in calls_in(f.node) if isinstance(c.func, ast.Attribute) and c.func.attr in LISTING_CALLS}
+    parse_funcs = {f.fq for f, _c, _k in parses}
+    entries = []
+    scope: set[str] = set()
+    for f in funcs:
+        if f.name.startswith("_"):
+            continue
+        r = reach(f)
+        if r & listing and r & parse_funcs:
+            entries.append(f)
+            scope |= r
+    key0 = "src::scan entry -> ast.parse"
+    if not parses:
+        res.undecide("C02.R7", key0, "no `ast.parse` / `compile(.., PyCF_ONLY_AST)` call found: how the syntax trees of scanned files are produced is not recognised")
+        return
+    if not entries:
+        res.undecide("C02.R7", key0, "no public function reaches both a directory listing and a parse call: the scan entry is not recognised")
+        return
+    res.analysed["scan_entries"] = sorted(getattr(e, "qualname", e.name) for e in entries)[:6]
+    named = repo.cls(IMPORT_TYPES, "NamedModule")
+    tree_field = next(iter(named.ann_attrs), "module")
+    callers: dict[str, list] = {}
+    for f in funcs:
+        if f.fq in scope:
+            for c in callees.get(f.fq, []):
+                callers.setdefault(c.fq, []).append(f)
+    n = 0
+    for f, call, kind in parses:
+        if f.fq not in scope:
+            res.observe(f"C02.R7: parse call `{norm(call)}` in {f.qualname} is not on the way from a scan entry, not an obligation")
+            continue
+        n += 1
+        key = repo.key(f, stmt_of(call))
+        wh = where(f, call)
+        # ---- (a) full grammar of the running interpreter
+        kw = {k.arg: k.value for k in call.keywords if k.arg}
+        bad: list[str] = []
+        unknown: list[str] = []
+        mode = kw.get("mode", call.args[2] if len(call.args) > 2 else None)
+        if mode is not None:
+            v = _const_value(repo, f, mode)
+            if v is ...:
+                unknown.append(f"mode `{norm(mode)}` is not a constant")
+            elif v != "exec":
+                bad.append(f"mode {v!r} instead of 'exec': only a restricted form of source is accepted")
+        fv = kw.get("feature_version", kw.get("_feature_version"))
+        if fv is not None and not (isinstance(fv, ast.Constant) and fv.value is None):
+            v = _const_value(repo, f, fv)
+            cur = sys.version_info[:2]
+            if v is ...:
+                if "version_info" not in norm(fv):
+                    unknown.append(f"feature_version `{norm(fv)}` is not a constant")
+            else:
+                ver = v if isinstance(v, tuple) else (3, v) if isinstance(v, int) and v >= 0 else cur
+                if isinstance(ver, tuple) and len(ver) >= 2 and all(isinstance(x, int) for x in ver[:2]) and tuple(ver[:2]) < cur:
+                    bad.append(f"feature_version={ver[0]}.{ver[1]} is below the running interpreter's grammar ({cur[0]}.{cur[1]}): files using newer syntax (match/case, except*, type statements, ...) do not parse")
+        opt = kw.get("optimize")
+        if opt is not None and _const_value(repo, f, opt) not in (-1, 0, ...):
+            bad.append(f"optimize={norm(opt)} removes `assert` / `if __debug__` blocks (and imports inside them) from the tree")
+        for u in unknown[:1]:
+            res.undecide("C02.R7", key + " [full grammar]", u, wh)
+        if not unknown:
+            res.add("C02.R7", key + " [full grammar]", not bad, f"`{norm(call)}` parses with the running interpreter's full grammar" if not bad else f"`{norm(call)}`: {bad[0]}; such a file keeps its node but loses all its imports", wh, kind="grammar")
+        # ---- (b) a SyntaxError must leave the scan as an exception
+        swallow: list[tuple[Any, ast.AST, str]] = []
+        seen: set[tuple[str, int]] = set()
+        todo: list[tuple[Any, ast.AST, int]] = [(f, call, 0)]
+        while todo:
+            g, node_, depth = todo.pop()
+            if (g.fq, id(node_)) in seen or depth > 5:
+                continue
+            seen.add((g.fq, id(node_)))
+            found = _swallowers(repo, g, node_)
+            swallow += [(g, h, text) for h, text in found]
+            if found:
+                continue
+            for c_ in callers.get(g.fq, []):
+                for site in calls_in(c_.node):
+                    try:
+                        cs, _how = T.callees(c_, site, byname_fallback=True)
+                    except Exception:  # noqa: BLE001
+                        cs = []
+                    if any(x.fq == g.fq for x in cs):
+                        todo.append((c_, site, depth + 1))
+        ok = not swallow
+        if swallow:
+            g, h, text = swallow[0]
+            res.add("C02.R7", key + " [syntax errors surface]", False, f"a SyntaxError of `{norm(call)}` is swallowed by a {text} in {g.qualname} and the scan goes on without the file's tree: the file silently loses all its imports", where(g, h), kind="dominance")
+        else:
+            res.add("C02.R7", key + " [syntax errors surface]", True, "no handler between the parse call and the scan entry swallows a SyntaxError", wh, kind="dominance")
+        # ---- (c) the tree handed to the collector is the parse result itself
+        verdict = _tree_passed_on(repo, T, f, call, named, tree_field, callers, 0)
+        if verdict is None:
+            res.undecide("C02.R7", key + " [tree handed on]", "the way the parse result reaches NamedModule(...) is not recognised (accepted: direct argument, a local bound to it, returned by a helper)", wh)
+        else:
+            okc, text, where_ = verdict
+            res.add("C02.R7", key + " [tree handed on]", okc, text, where_ or wh, kind="flow")
+    if not n:
+        res.undecide("C02.R7", key0, "no parse call lies on the way from a scan entry")
+
+
+def _tree_passed_on(repo: Repo, T, f, call: ast.Call, named, tree_field: str, callers: dict, depth: int):
+    """(ok, text, where) or None when the flow of the parse result is not recognised."""
+    from core.loader import parent
+
+    # names bound to the parse result in f
+    p = parent(call)
+    names: set[str] = set()
+    if isinstance(p, ast.Assign) and p.value is call and all(isinstance(t, ast.Name) for t in p.targets):
+        names = {t.id for t in p.targets}
+    elif isinstance(p, ast.AnnAssign) and p.value is call and isinstance(p.target, ast.Name):
+        names = {p.target.id}
+    elif isinstance(p, ast.NamedExpr) and p.value is call and isinstance(p.target, ast.Name):
+        names = {p.target.id}
+
+    def is_result(e: ast.AST) -> bool:
+        return e is call or (isinstance(e, ast.Name) and e.id in names) or (isinstance(e, ast.NamedExpr) and e.value is call)
+
+    def derived(e: ast.AST) -> bool:
+        return any(is_result(x) for x in ast.walk(e))
+
+    # tampering with the tree before it is handed on
+    for n_ in own_nodes(f.node):
+        tgt = None
+        if isinstance(n_, (ast.Attribute, ast.Subscript)) and isinstance(n_.ctx, (ast.Store, ast.Del)):
+            tgt = n_
+        elif isinstance(n_, ast.Call) and isinstance(n_.func, ast.Attribute) and n_.func.attr in BODY_MUTATORS:
+            tgt = n_.func.value
+        if tgt is not None:
+            base = tgt
+            while isinstance(base, (ast.Attribute, ast.Subscript)):
+                base = base.value
+            if names and isinstance(base, ast.Name) and base.id in names and base is not tgt:
+                return False, f"the parsed tree is modified before it is handed to the collector: `{norm(stmt_of(n_))}`", where(f, n_)
+    for c in calls_in(f.node):
+        ci = T.ctor_class(f, c)
+        if ci is not None and ci.fq == named.fq:
+            arg = c.args[0] if c.args else next((k.value for k in c.keywords if k.arg == tree_field), None)
+            if arg is None:
+                continue
+            if is_result(arg):
+                return True, f"`{norm(c)[:80]}` wraps the parse result itself", where(f, c)
+            if derived(arg):
+                return False, f"the tree handed to the collector is `{norm(arg)}`, derived from the parse result instead of the parse result itself: statements (and their imports) can be missing", where(f, c)
+    # returned to the caller?
+    if depth < 3:
+        for n_ in own_nodes(f.node):
+            if isinstance(n_, ast.Return) and n_.value is not None and derived(n_.value):
+                if not is_result(n_.value):
+                    if isinstance(n_.value, ast.Tuple) and any(is_result(x) for x in n_.value.elts):
+                        return None
+                    return False, f"`{norm(n_)}` returns a value derived from the parse result instead of the tree itself", where(f, n_)
+                for c_ in callers.get(f.fq, []):
+                    for site in calls_in(c_.node):
+                        try:
+                            cs, _how = T.callees(c_, site, byname_fallback=True)
+                        except Exception:  # noqa: BLE001
+                            cs = []
+                        if any(x.fq == f.fq for x in cs):
+                            v = _tree_passed_on(repo, T, c_, site, named, tree_field, callers, depth + 1)
+                            if v is not None:
+                                return v
+    return None
+
+
 def run(repo: Repo) -> Result:
     res = Result("C02")
     res.explanation = (
@@ -908,10 +1272,12 @@ def run(repo: Repo) -> Result:
     res.not_decided = "that ast.parse builds the tree the grammar describes (trusted); module naming of files (C04); flattening by level_limit (C09)."
     res.trusted_base = ["CPython ast module docstrings describe the grammar", "ast.iter_child_nodes / ast.walk yield every child node", "networkx DiGraph semantics of has_node / has_edge / add_edge", "symbolic executor rules/c02_*.py"]
     gram = grammar()
+    run_r7(repo, res)
     gpm = repo.find_func(TYPES_MOD, "get_parent_modules")
     col = Collector(repo, gpm.fq if gpm is not None else None)
     usable, hierarchy_fq = run_r2_r3_r4(repo, res, gram, col)
     run_r4_ancestors(repo, res, hierarchy_fq)
+    run_r4_shared_ancestors(repo, res, hierarchy_fq)
     if usable:
         run_r1(repo, res, gram, col, usable)
     run_r5_creators(repo, res, col)
